@@ -18,6 +18,10 @@ Oracle: per-task model {user pause count, waiting on a yielded Deferred, done(ki
     every pause with a resume, every task finishes within sum(remaining)+N^2+10 ticks;
   * Cooperator.stop() completes every task in the running set with SchedulerStopped at once; paused
     / waiting tasks get it when they would become runnable again (unless start() came first).
+Raising iterators raise Boom(Exception) or, in ~30 % of the cases, a BaseException that is not an Exception
+(harness class, KeyboardInterrupt, SystemExit, GeneratorExit, asyncio.CancelledError): the task must be
+completed with TaskFailed and that very exception, and nothing may escape the tick (the driver catches
+whatever does and reports `exception-escaped-scheduler-tick`).
 Yielded Deferreds come in four shapes: fresh and unfired; already fired but chained to an inner
 unfired Deferred; already fired (ok / failed) and pause()d; already fired with nothing pending.  The
 task counts as waiting until the yielded Deferred's callback chain delivers (inner fired / unpause),
@@ -59,12 +63,30 @@ FLOORS = {"next_checks": 20000, "completion_checks": 5000, "done_exhausted": 100
           "done_sched_stopped": 300, "finished_op_refused": 300, "not_paused_raised": 100, "deferred_waits": 1000,
           "pause_while_waiting": 100, "ops_inside_next": 1000, "ops_inside_callback": 200, "coop_stops_with_2plus_running": 100,
           "whendone_after_completion": 200, "starvation_checks": 20000, "drains": 1000,
-          "unmatched_resumes_while_waiting": 100, "waits_on_defer": 1000, "waits_on_dchain": 300, "waits_on_dpaused": 200, "already_fired_deferreds_yielded": 200}
+          "unmatched_resumes_while_waiting": 100, "waits_on_defer": 1000, "waits_on_dchain": 300, "waits_on_dpaused": 200, "already_fired_deferreds_yielded": 200,
+          "iterators_raising_baseexception_only": 200}
 READY = True
 
 
 class Boom(Exception):
     pass
+
+
+class BoomBase(BaseException):
+    """A harness exception that is not an Exception subclass."""
+
+
+def raised_exception(name, tid):
+    """The exception a "raise" step of an iterator raises; ~30 % are BaseException-only classes."""
+    if name == "BoomBase":
+        return BoomBase(tid)
+    if name == "CancelledError":
+        import asyncio
+
+        return asyncio.CancelledError(tid)
+    if name in ("KeyboardInterrupt", "SystemExit", "GeneratorExit"):
+        return {"KeyboardInterrupt": KeyboardInterrupt, "SystemExit": SystemExit, "GeneratorExit": GeneratorExit}[name](tid)
+    return Boom(tid)
 
 
 class FakeDC:
@@ -163,6 +185,9 @@ def gen_case(rng, self_ops):
                 k = "val"
             steps.append([k, small_op() if rng.random() < inline_p else None, rng.random() >= fail_p])
             if k == "raise":
+                steps[-1].append(rng.choice(["BoomBase", "KeyboardInterrupt", "SystemExit", "GeneratorExit", "CancelledError"])
+                                 if rng.random() < 0.3 else "Boom")
+            if k == "raise":
                 break
         end_inline = small_op() if rng.random() < inline_p / 2 else None
         # a long tail of plain values makes a task outlive the history, so unfair scheduling shows up as starvation
@@ -218,6 +243,7 @@ class Monitor:
         self.stopping = None  # tids of the running set while a real Cooperator.stop() is in progress
         self.reentrant = None
         self.orphaned_in_tick = False
+        self.base_raised_in_tick = False
         self.coop = task.Cooperator(terminationPredicateFactory=self.tpf, scheduler=self.sched, started=case["started"])
 
     # ---- plumbing
@@ -325,6 +351,7 @@ class Monitor:
         else:
             kind, inline = steps[tm.pos][0], steps[tm.pos][1]
             preset_ok = steps[tm.pos][2] if len(steps[tm.pos]) > 2 else True
+            exc_name = steps[tm.pos][3] if len(steps[tm.pos]) > 3 else "Boom"
         tm.pos += 1
         if inline is not None:
             self.stat("ops_inside_next")
@@ -338,7 +365,10 @@ class Monitor:
             self.set_done(tm, "done")
             raise StopIteration
         if kind == "raise":
-            exc = Boom(tm.tid)
+            exc = raised_exception(exc_name, tm.tid)
+            if not isinstance(exc, Exception):
+                self.stat("iterators_raising_baseexception_only")
+                self.base_raised_in_tick = True
             self.set_done(tm, "failed", exc)
             raise exc
         if kind in ("defer", "dchain", "dpaused"):
@@ -496,12 +526,17 @@ class Monitor:
         self.in_tick = True
         self.reentrant = None
         self.orphaned_in_tick = False
+        self.base_raised_in_tick = False
         self.stat("ticks")
         try:
             t.fn()
-        except Exception as e:  # noqa: BLE001
+        except BaseException as e:  # noqa: BLE001 - whatever escapes a tick is reported, it must not kill the driver
             r = self.reentrant
-            if self.orphaned_in_tick:
+            if not isinstance(e, Exception):
+                self.fail("exception-escaped-scheduler-tick", "%s escaped from Cooperator._tick (an iterator's next() raised a "
+                          "BaseException that is not an Exception: the task is not completed, the tick did not reschedule)"
+                          % type(e).__name__, exception=type(e).__name__, raised_by_iterator_in_this_tick=self.base_raised_in_tick)
+            elif self.orphaned_in_tick:
                 # cascade of cooperator-stop-skips-tasks (already reported): a skipped task was inside its own next()
                 self.stat("tick_raised_after_stop_skipped_tasks")
                 self.bad = True
